@@ -8,7 +8,7 @@ import sympy as sp
 
 from .. import terms as TM
 from ..absint import Interp, Unsupported
-from .common import is_callable_value, public_functional
+from .common import global_state_calls, is_callable_value, public_functional
 from ..core import AnalysisError, Report, Repo
 from ..oracle import oracle_function, std_globals
 from ..schemas import O, P
@@ -110,6 +110,28 @@ def discover_wrappers(it: Interp) -> Dict[str, Tuple[Any, Any]]:
         if len(calls) == 1 and calls[0] is not n:
             out[dotted] = (k, calls[0].attrs["target"])
     return out
+
+
+def check_backend_process_state(report: Report, repo: Repo, rule: str) -> None:
+    """The quantisation backend (which runs inside every simulated forward pass's first call) leaves torch's
+    process-wide numeric settings alone; used by C14 as well, whose value set needs float32 subnormals."""
+    from ..fxmodel import AbstractGraph
+
+    it = Interp(repo, opaque=lambda f: isinstance(f, FuncV) and f.qualname in ("apply_transform", "format_to_tuple"))
+    ff, bf = Obj("FPFormat", term=T("param", ("fwd_format",))), Obj("FPFormat", term=T("param", ("bwd_format",)))
+    cons = f"{SF}::quantisation-backend::process-state"
+    try:
+        backend = backend_of(it, ff, bf)
+        g = AbstractGraph(it)
+        x = g.node("x", "placeholder", "x")
+        n = g.node("lin", "call_function", ExtV("torch.nn.functional.linear"), (x, x, x), {})
+        g.node("output", "output", "output", ((n,),), {})
+        it.events = []
+        it.call_function(backend, [Obj("torch.fx.GraphModule", attrs={"graph": g.obj}, term=T("param", ("gm",))), O("example_inputs")], {})
+        gsc = global_state_calls(it.events)
+        report.add(rule, cons, not gsc, "running the quantisation backend does not change a process-wide torch setting (denormal flushing, default dtype, RNG state, ...)", gsc, [], nontrivial=False)
+    except Unsupported as ex:
+        report.add(rule, cons, None, f"outside fragment: {ex}")
 
 
 def check_per_format(report: Report, repo: Repo, rule: str) -> None:
@@ -405,6 +427,8 @@ def check(report: Report, repo: Repo) -> None:
         report.add("R5-backend", f"{cons}::sweep", ok, "exactly the call_function nodes whose target is in the map are rewritten (to that target's wrapper), in graph order; other opcodes and other targets are untouched", [f"{o}:{fmt(t)}" for o, t in calls_now], [f"{o}:{fmt(t)}" for o, t in want])
         untouched = all(any(n_ is m_ for n_ in g5.nodes) for m_ in other_nodes)
         report.add("R5-backend", f"{cons}::others", untouched, "nodes that are not linear / attention calls are the same node objects as before", "kept" if untouched else "replaced", "kept", nontrivial=False)
+        gsc = global_state_calls(it5.events)
+        report.add("R5-backend", f"{cons}::process-state", not gsc, "running the backend does not change a process-wide torch setting (denormal flushing, default dtype, RNG state, ...): the simulated formats rely on float32 subnormals", gsc, [], nontrivial=False)
         kept_stmts = all(any(n_ is m_ for n_ in g5.nodes) for m_ in stmt_nodes)
         report.add("R5-backend", f"{cons}::statements", kept_stmts, "nodes without users (in-place method calls, assertions) are part of the computation and survive the rewrite (no dead-code elimination)", [m_.attrs["name"] for m_ in stmt_nodes if not any(n_ is m_ for n_ in g5.nodes)], [])
         report.add("R5-backend", f"{cons}::lint", g5.linted >= 1, "graph.lint() is called after the rewrite", g5.linted, ">=1", nontrivial=False)
